@@ -104,12 +104,14 @@ INCLUDE_ARGS = ["conf:site.conf", "zope://h/x.conf", "svn+ssh://h/x", "mailto:a@
                 "package::", "package:os:x", "package:nosuch9:x", "package:ZConfig:nosuch.xml", "package:.:x",
                 "package:ZConfig.nosuch9:component.xml", "http://[x", "http://[::1", "file:///%00", "x%00y", "ftp://",
                 "x#frag", "#", "file:", "file://", "//h/x", "\\\\h\\x", "c:x", "C:\\x", "a b", "%41", "?q",
-                "nosuch.conf", "sub/", ".", "..", "/", "file:///", "data:,k%20v", "x:", ":x", "1:2"]
+                "nosuch.conf", "sub/", ".", "..", "/", "file:///", "data:,k%20v", "x:", ":x", "1:2",
+                "http://[x#y", "[#", "//[x#f", "http://h/p#f", "x#", "a#b#c", "[", "]:", "http://]", "//[", "http://[::1]#", "file://[/x#y"]
 
 
 def include_arg_cases(ctx, base):
     """one %include line with an argument of every class, at top level and inside a section, literal and through a
     %define; evaluated on the real loader only (there is nothing to model: the observable is the exception family)"""
+    import ZConfig
     rng = ctx.rng
     root = tempfile.mkdtemp(prefix="zcv-inc-", dir="/dev/shm" if os.path.isdir("/dev/shm") else None)
     try:
@@ -126,14 +128,23 @@ def include_arg_cases(ctx, base):
                     p = os.path.join(root, "main.conf")
                     with open(p, "w", encoding="utf-8", newline="") as f:
                         f.write("".join(l + "\n" for l in lines))
-                    out, _, _ = cfgrun.real_load_path(c.real, p)
-                    ctx.evaluations += 1
-                    ctx.count("include-arg:" + out[0])
-                    ctx.nontriv(("incarg", id(c.sd), arg, via_define, pos))
-                    if out[0] == "internal":
-                        ctx.violate("%s escaped from loadConfig for '%%include %s'" % (out[1], arg),
-                                    {"schema_xml": F.render_xml(c.sd), "lines": lines, "impl": out},
-                                    signature="C07:include-arg:%s" % out[1])
+                    # by path, and from an open stream that has no URL at all (relative arguments then meet no base)
+                    for entry in ("path", "stream-without-url"):
+                        if entry == "path":
+                            out, _, _ = cfgrun.real_load_path(c.real, p)
+                        else:
+                            try:
+                                ZConfig.loadConfigFile(c.real, io.StringIO("".join(l + "\n" for l in lines)))
+                                out = ["ok"]
+                            except Exception as e:
+                                out = cfgrun.classify_exc(e)
+                        ctx.evaluations += 1
+                        ctx.count("include-arg:%s:%s" % (entry, out[0]))
+                        ctx.nontriv(("incarg", id(c.sd), arg, via_define, pos, entry))
+                        if out[0] == "internal":
+                            ctx.violate("%s escaped from %s for '%%include %s'" % (out[1], "loadConfig" if entry == "path" else "loadConfigFile (stream without URL)", arg),
+                                        {"schema_xml": F.render_xml(c.sd), "lines": lines, "impl": out, "entry": entry},
+                                        signature="C07:include-arg:%s" % out[1])
     finally:
         shutil.rmtree(root, ignore_errors=True)
 
@@ -201,7 +212,9 @@ def _validator(ctx, cases):
     """validator.main in-process: per schema, good and bad files in several orders (a bad file first, last, in the
     middle, only good, only bad); status must be 0 iff every file is valid, and exactly one message per invalid file"""
     import contextlib
+    import ZConfig
     from ZConfig import validator
+    from ..sexp import Atom
 
     class CountingStream(io.StringIO):
         def __init__(self):
@@ -239,7 +252,18 @@ def _validator(ctx, cases):
                 plans.append(bad[:1])
             if good and bad:
                 plans += [[bad[0], good[0]], [good[0], bad[0]], [bad[0], bad[-1], good[0]], [good[0], bad[0], good[-1]]]
-            for paths in plans:
+            # the same loop on the model (lean/ZCV/Model/Validator.lean, theorems C07_validator_*): status and messages from
+            # the per-file outcomes of the real loads
+            msg_of = {}
+            for p in bad:
+                try:
+                    with open(p, encoding="utf-8", newline="") as fobj:
+                        ZConfig.loadConfigFile(F.load_real(cs[0].sd), fobj)
+                except ZConfig.ConfigurationError as e:
+                    msg_of[p] = str(e)
+            model_ans = core.driver_batch([[Atom("validator"), [([Atom("cfg"), msg_of.get(p, "?")] if p in bad else Atom("valid")) for p in paths]]
+                                           for paths in plans]) if (ctx.driver_ok and plans) else [None] * len(plans)
+            for paths, mans in zip(plans, model_ans):
                 expected_bad = sum(1 for p in paths if p in bad)
                 buf = CountingStream()
                 try:
@@ -253,6 +277,12 @@ def _validator(ctx, cases):
                     continue
                 ctx.evaluations += 1
                 ctx.count("validator:rc=%s" % rc)
+                if mans is not None:
+                    model_err = "".join(str(m) + "\n" for m in mans[2]) if (isinstance(mans, list) and len(mans) == 3) else None
+                    if not (isinstance(mans, list) and mans and mans[0] == "exit" and int(mans[1]) == rc):
+                        ctx.disagree("validator-status", [("bad" if p in bad else "good") for p in paths], rc, mans)
+                    elif model_err != buf.getvalue():
+                        ctx.disagree("validator-messages", [("bad" if p in bad else "good") for p in paths], buf.getvalue()[:600], (model_err or "")[:600])
                 texts = [open(p, encoding="utf-8").read() for p in paths]
                 if rc != (1 if expected_bad else 0):
                     ctx.violate("validator status %r for files of which %d are invalid (order: %s)" % (
